@@ -1,7 +1,15 @@
 From Coq Require Import List NArith Bool Arith.
-From AMV Require Import Base.ListSet Model.Schema Model.Machine Run.EvalHist Spec.C05 Spec.C05b.
+From AMV Require Import Base.ListSet Model.Schema Model.Machine Run.EvalHist Spec.C05 Spec.C05b Spec.C05d.
+From AMV Require Export Spec.C05d.
 Import ListNotations.
 Definition violations (k : hcase) : list N :=
   nodup N.eq_dec (c05_codes (h_schema k) (h_topo k) (h_bindings k) (h_obs k)
                   ++ c05b_codes (h_schema k) (h_topo k) (h_bindings k) (h_obs k)).
-Definition check_all := check_hist violations.
+Inductive c05case := C05H (k : hcase) | C05D (d : dcase).
+
+Definition check_all (cs : list (N * c05case)) : list (N * N * N) :=
+  flat_map (fun ic : N * c05case =>
+    match snd ic with
+    | C05H k => check_hist violations [(fst ic, k)]
+    | C05D d => map (fun c => (fst ic, 2%N, c)) (detach_codes d)
+    end) cs.
